@@ -132,8 +132,9 @@ class Result:
             cov.pop("states"), cov.pop("transitions")
         ev = {"property_id": self.pid, "tier": self.tier, "seed": self.seed, "level": level, "coverage": cov,
               "assumptions": self.assumptions, "wall_s": round(wall, 1), "violations": len(self.violations)}
-        os.makedirs(os.path.join(VERIF, "evidence"), exist_ok=True)
-        with open(os.path.join(VERIF, "evidence", self.pid + ".json"), "w") as f:
+        evdir = os.environ.get("VERIF_EVIDENCE_DIR") or os.path.join(VERIF, "evidence")
+        os.makedirs(evdir, exist_ok=True)
+        with open(os.path.join(evdir, self.pid + ".json"), "w") as f:
             json.dump(ev, f, indent=1, sort_keys=True)
         for fid, n in sorted(self.known_hits.items()):
             print("KNOWN-FINDING: property=%s %s (%d events)" % (self.pid, fid, n))
